@@ -7,7 +7,6 @@ import (
 	"strings"
 	"time"
 
-	sdk "github.com/cosmos/cosmos-sdk/types"
 	stakingtypes "github.com/cosmos/cosmos-sdk/x/staking/types"
 
 	channeltypes "github.com/cosmos/ibc-go/v10/modules/core/04-channel/types"
@@ -102,7 +101,7 @@ func (w *World) trackTxOutcomes(outs []TxOutcome) {
 		}
 		if pid := eventAttr(o.Result.Events, "submit_proposal", "proposal_id"); pid != "" {
 			id, _ := strconv.ParseUint(pid, 10, 64)
-			w.Shadow.Props = append(w.Shadow.Props, &Prop{ID: id, Desc: o.Spec.Tag})
+			w.Shadow.Props = append(w.Shadow.Props, &Prop{ID: id, Desc: o.Spec.Tag, Voted: true})
 		}
 	}
 }
@@ -176,7 +175,7 @@ func (w *World) relayToProvider() []TxSpec {
 		if l.C == nil || l.C.Halted {
 			continue
 		}
-		if len(l.ToProv) == 0 && len(l.AcksToProv) == 0 {
+		if len(l.ToProv) == 0 && len(l.AcksToProv) == 0 && len(l.Timeouts) == 0 {
 			continue
 		}
 		ci := w.Shadow.ByID[id]
@@ -187,23 +186,18 @@ func (w *World) relayToProvider() []TxSpec {
 		if clientStatus(w.P, l.ProvClient) != "Active" {
 			continue
 		}
-		pk, n1 := w.recvMsgs(l.ToProv, 1+w.Rnd.Intn(4), l.C, w.P)
-		ak, n2 := w.recvMsgs(l.AcksToProv, 1+w.Rnd.Intn(8), l.C, w.P)
-		if n1+n2 == 0 {
+		pk := w.relayBatch(l, &l.ToProv, 1+w.Rnd.Intn(4), l.C, w.P, "relay-recv:"+id)
+		ak := w.relayBatch(l, &l.AcksToProv, 1+w.Rnd.Intn(8), l.C, w.P, "relay-ack:"+id)
+		to := w.timeoutSpecs(l, w.P, l.C, l.ProvClient)
+		if len(pk)+len(ak)+len(to) == 0 {
 			continue
 		}
 		if ups := w.updateClientMsgs(w.P, l.ProvClient, l.C); len(ups) > 0 {
 			specs = append(specs, TxSpec{Signer: racct, Msgs: ups, Tag: "relay-update:" + id})
 		}
-		// one tx per packet so that a failing packet does not roll back its neighbours
-		for _, m := range pk {
-			specs = append(specs, TxSpec{Signer: racct, Msgs: []sdk.Msg{m}, Tag: "relay-recv:" + id})
-		}
-		for _, m := range ak {
-			specs = append(specs, TxSpec{Signer: racct, Msgs: []sdk.Msg{m}, Tag: "relay-ack:" + id})
-		}
-		l.ToProv = l.ToProv[n1:]
-		l.AcksToProv = l.AcksToProv[n2:]
+		specs = append(specs, pk...)
+		specs = append(specs, ak...)
+		specs = append(specs, to...)
 	}
 	return specs
 }
@@ -216,20 +210,16 @@ func (w *World) ConsumerStep(l *Link, nPackets, nAcks int, extra []TxSpec, opts 
 	}
 	var specs []TxSpec
 	if clientStatus(c, l.ConsClient) == "Active" {
-		pk, n1 := w.recvMsgs(l.ToCons, nPackets, w.P, c)
-		ak, n2 := w.recvMsgs(l.AcksToCons, nAcks, w.P, c)
-		if n1+n2 > 0 {
+		pk := w.relayBatch(l, &l.ToCons, nPackets, w.P, c, "relay-recv")
+		ak := w.relayBatch(l, &l.AcksToCons, nAcks, w.P, c, "relay-ack")
+		to := w.timeoutSpecs(l, c, w.P, l.ConsClient)
+		if len(pk)+len(ak)+len(to) > 0 {
 			if ups := w.updateClientMsgs(c, l.ConsClient, w.P); len(ups) > 0 {
 				specs = append(specs, TxSpec{Signer: c.relayer, Msgs: ups, Tag: "relay-update"})
 			}
-			for _, m := range pk {
-				specs = append(specs, TxSpec{Signer: c.relayer, Msgs: []sdk.Msg{m}, Tag: "relay-recv"})
-			}
-			for _, m := range ak {
-				specs = append(specs, TxSpec{Signer: c.relayer, Msgs: []sdk.Msg{m}, Tag: "relay-ack"})
-			}
-			l.ToCons = l.ToCons[n1:]
-			l.AcksToCons = l.AcksToCons[n2:]
+			specs = append(specs, pk...)
+			specs = append(specs, ak...)
+			specs = append(specs, to...)
 		}
 	}
 	specs = append(specs, extra...)
@@ -343,9 +333,14 @@ func (w *World) minTrusting() time.Duration {
 	return m
 }
 
-// refreshClients produces one block everywhere and updates all clients in both directions.
+// refreshClients produces fresh headers everywhere and updates all clients in both directions.
 func (w *World) refreshClients() {
 	racct := w.Accts["relayer"]
+	w.lastRefresh = w.Now
+	// fresh consumer headers first
+	for _, l := range w.LiveLinks() {
+		w.Produce(l.C, nil, nil)
+	}
 	var specs []TxSpec
 	for _, l := range w.LiveLinks() {
 		if clientStatus(w.P, l.ProvClient) == "Active" {
@@ -363,6 +358,16 @@ func (w *World) refreshClients() {
 			}
 		}
 		w.Produce(l.C, cs, nil)
+	}
+}
+
+// maybeKeepAlive refreshes the clients when a third of the shortest trusting period has passed since the last refresh.
+func (w *World) maybeKeepAlive() {
+	if w.NoKeepAlive || len(w.LiveLinks()) == 0 {
+		return
+	}
+	if w.Now.Sub(w.lastRefresh) > w.minTrusting()/3 {
+		w.refreshClients()
 	}
 }
 
